@@ -1,11 +1,10 @@
-\* Schedule graph 3 (also a design run): capacity 3, the reader's channel is relocated by swap_remove
-\* while its context holds a cached key, sequence number and slot hint; one reader with 4 calls.
+\* Schedule graph 3 (also a design run): capacity 4; swap_remove relocates channels while a reader context holds a cached key, sequence number and slot hint (seal and open); removals of absent ids before real removals; one reader with 3 calls.
 SPECIFICATION Spec
 CONSTANTS
   Readers = {1}
-  Cap = 3
+  Cap = 4
   WScripts <- ScriptsMove
-  ROps = 4
+  ROps = 3
   Mutant = "none"
 INVARIANTS TypeOK SeqsOk RemovalEffective NoLostChannel NoResurrection SidesEqualWhenIdle TableIsModel NoDuplicates WithinCap ReaderSeesProduced OutOfSpaceIffFull IdsNeverReused InSync
 CHECK_DEADLOCK FALSE
